@@ -829,7 +829,10 @@ class ParserField:
             return no_input if isinstance(no_input, bool) else False
 
         if isinstance(no_input, (str, list, set, tuple)):
-            return options.mode in no_input
+            if options.mode in no_input:
+                return True
+            # the other modes are up to the field's mode (like always_no_input)
+            no_input = False
 
         if no_input is True:
             return True
@@ -886,7 +889,10 @@ class ParserField:
             return no_output if isinstance(no_output, bool) else False
 
         if isinstance(no_output, (str, list, set, tuple)):
-            return options.mode in no_output
+            if options.mode in no_output:
+                return True
+            # the other modes are up to the field's mode (like always_no_output)
+            no_output = False
 
         if no_output is True:
             return True
